@@ -6,6 +6,8 @@ import VhostModel.Drv.Locks
 import VhostModel.Drv.Log
 import VhostModel.Drv.Route
 import VhostModel.Drv.Kern
+import VhostModel.Drv.Mem
+import VhostModel.Drv.Vq
 /-! Model driver: one scenario per input line, one prediction per output line. -/
 
 def dispatch (line : String) : String :=
@@ -19,6 +21,8 @@ def dispatch (line : String) : String :=
   | "route" :: _ => Drv.Route.run toks
   | "log" :: _ => Drv.Log.run toks
   | "kern" :: _ => Drv.Kern.run toks
+  | "mem" :: _ => Drv.Mem.run toks
+  | "vq" :: _ => Drv.Vq.run toks
   | _ => "bad-family"
 
 partial def loop (h : IO.FS.Stream) (out : IO.FS.Stream) : IO Unit := do
